@@ -715,11 +715,27 @@ def bad_recursive_cases():
     ]
 
 
+def embedded_cases():
+    """Definitions with embedded struct fields, as static Go types of the harness (gotype)."""
+    def fd(name, exported, tag, pt, t):
+        return {"n": name, "gn": name, "exported": exported, "pt": pt, "raw": True, "tag": tag, "t": t, "i": 0, "enc": False, "opt": ""}
+    idx = lambda i: {"form": "index", "idx": i, "opt": ""}
+    none = {"form": "none", "idx": 0, "opt": ""}
+    st = lambda fs: {"k": "struct", "name": "", "f": fs}
+    base = st([fd("X", True, 'plenc:"1"', idx(1), {"k": "int", "w": 64, "g": "int"})])
+    name = fd("Name", True, 'plenc:"1"', idx(1), {"k": "string"})
+    return [
+        {"ev": "typedef", "gotype": "EmbLow", "u": ["embedded", "unexported-type"], "T": st([fd("embBase", False, "", none, base), name])},
+        {"ev": "typedef", "gotype": "EmbUp", "u": ["embedded", "exported-type-tagged"], "T": st([fd("EmbBase", True, 'plenc:"2"', idx(2), base), name])},
+        {"ev": "typedef", "gotype": "EmbUpNoTag", "u": ["embedded", "exported-type-untagged"], "T": st([fd("EmbBase", True, "", none, base), name])},
+    ]
+
+
 def plan_C08(ctx):
     ctx.build()
     cases, st = fam_codec.mc_generic(ctx.work, "MCTypes", "  Env <- MCEnv\n  Emit = TRUE\n", "ClassTotal SkippedIgnored AcceptedEncodes DupRejected")
     ctx.add_mc(st)
-    cases += bad_recursive_cases()
+    cases += bad_recursive_cases() + embedded_cases()
     log("design check MCTypes: %d states, %d definitions" % (st["distinct"], len(cases)))
     for c in cases:
         c["cfg"] = fam_codec.CFGS["default"]
